@@ -115,6 +115,11 @@ def run_case(ctx, g, rng):
                 continue
             curie = cu[1]
             probe.evaluated("round-trip")
+            pu = call(c.parse_uri, u, return_none=True)
+            if pu[0] == "ret" and pu[1] is not None:
+                call(c.expand_reference, pu[1])
+                call(c.expand_pair_all, pu[1].prefix, pu[1].identifier)
+            call(c.standardize_curie, curie)
             ea = call(c.expand_all, curie)
             e = call(c.expand, curie)
             su = call(c.standardize_uri, u)
